@@ -122,6 +122,28 @@ theorem cleanup_trace_nodup (fails : Nat → Bool) (se : Bool) (cs : List Call) 
   rw [List.Nodup, List.pairwise_map]
   exact (cleanup_respects_deps cs).imp (fun hab h => by injection h; omega)
 
+/-- **The failure path, end to end (C03's unwinding has the same order).**  If the planner's call list is
+    `pre ++ c :: post` and the error-capable provider `c` is the first to fail, then among the cleanups the
+    injector runs before returning the error, the cleanup of `q` precedes the cleanup of `p` whenever `q`
+    was built from `p`. -/
+theorem unwind_before_what_it_was_built_from {pm : PMap} {sm : SMap} {given : List Ty} {out : Ty}
+    (hH : WireP.Solve.H pm given) (hg : WireP.Solve.GivenSelf pm given)
+    (fails : Nat → Bool) (sc se : Bool) (pre post : List Call) (c : Call)
+    (hcs : (WireP.Solve.final pm sm given out).calls = pre ++ c :: post)
+    (hck : isFn c = true) (hce : c.hasErr = true) (hcf : fails pre.length = true)
+    (hpre : NoFail fails 0 pre) {q p : Nat}
+    (hb : BuiltFrom given.length (WireP.Solve.final pm sm given out).calls q p)
+    (hq : q ∈ clPos 0 pre) (hp : p ∈ clPos 0 pre) :
+    List.Sublist [Ev.cleanup q, Ev.cleanup p]
+      (runInj fails sc se (WireP.Solve.final pm sm given out).calls).1 := by
+  have hlt := builtFrom_earlier hH hg hb
+  rw [hcs, WireP.C03.fail_trace_and_result fails sc se pre post c hck hce hcf hpre]
+  have h := sublist_pair_of_pairwise_gt (WireP.C03.fail_each_once_reverse pre)
+    (List.mem_reverse.mpr hq) (List.mem_reverse.mpr hp) hlt
+  have h2 : List.Sublist [Ev.cleanup q, Ev.cleanup p] ((clPos 0 pre).reverse.map Ev.cleanup) := by
+    simpa using h.map Ev.cleanup
+  exact h2.trans (List.sublist_append_right _ _)
+
 -- non-vacuity of `BuiltFrom`: step 2 is built from step 0 through the struct step 1
 example : BuiltFrom 0
     [{ kind := .func, out := 10, srcId := 1, hasCleanup := true },
